@@ -595,6 +595,7 @@ func c11(c *core.Check) {
 	argNameRule(c, r5, "text", nil, 5)
 	c11TextAlign(c)
 	c11Offsets(c)
+	c11WordBreak(c)
 
 }
 
